@@ -59,16 +59,28 @@ def collect(ctx, pkgs, dirs, res, stats):
     return good, failures
 
 def split_failures(ctx, failures, base, stats, timeout):
-    """a package failed to build/run under some profile: rerun every program alone to find the culprits"""
-    singles, out = {}, []
+    """a package failed to build/run under some profile: rerun every program alone, under the failing
+    profile(s) only (the other profile's per-test results are taken from the package run)"""
+    out = []
     for name, gens, rs, bad in failures:
+        singles = {g.p.name: sway.write_pkg(os.path.join(base, "single"), g.p.name, {"lib.sw": "library;\n\n" + g.p.sway()}) for g in gens}
+        res = {}
+        for prof in ("debug", "release"):
+            if prof in bad:
+                # generous time-out, half the cores: one small program per package
+                r = sway.run_pkgs(list(singles.values()), release=(prof == "release"), timeout=max(timeout, 1200), jobs=8)
+                res[prof] = {n: r[d] for n, d in singles.items()}
+            else:
+                by = {t["name"]: t for t in rs[prof]["tests"]}
+                res[prof] = {n: ({"status": "ok", "tests": [by[n]]} if n in by else {"status": "harness_error", "error": "no result"}) for n in singles}
         for g in gens:
-            singles[g.p.name] = (g, sway.write_pkg(os.path.join(base, "single"), g.p.name, {"lib.sw": "library;\n\n" + g.p.sway()}))
-    dirs = {n: d for n, (g, d) in singles.items()}
-    res = pipeline.run_profiles(dirs, timeout=timeout)
-    for n, (g, d) in singles.items():
-        out.append((g, d, res[n]["debug"], res[n]["release"]))
+            out.append((g, singles[g.p.name], res["debug"][g.p.name], res["release"][g.p.name]))
     return out
+
+def confirm_timeout(d, release):
+    """a time-out is only reported when the program, alone on one core budget, still does not finish"""
+    r = sway.run_pkgs([d], release=release, timeout=2400, jobs=1)[d]
+    return r
 
 def diag(d, release):
     binp, _ = rust.build("c01")
@@ -85,6 +97,14 @@ def report_single(ctx, g, d, rd, rr, stats):
     if sd == "ok" and sr == "ok":
         td, tr = rd["tests"][0], rr["tests"][0]
         return pipeline.observe(td), pipeline.observe(tr)
+    for prof, r in (("debug", rd), ("release", rr)):
+        if r["status"] == "harness_error" and "rc=124" in r.get("error", ""):
+            r2 = confirm_timeout(d, prof == "release")
+            if prof == "debug": rd = r2
+            else: rr = r2
+    sd, sr = rd["status"], rr["status"]
+    if sd == "ok" and sr == "ok":
+        return pipeline.observe(rd["tests"][0]), pipeline.observe(rr["tests"][0])
     key_src = hashlib.sha256(src.encode()).hexdigest()[:10]
     if sd != sr:
         # the two profiles disagree on whether the program can be built/run at all: C02's subject, also a C01 failure
@@ -135,7 +155,7 @@ def run_generated(ctx, npk, nprog, stats, save=True):
     pkgs.append(("gcanon", [canon]))
     dirs = pipeline.write_packages(base, pkgs)
     t0 = time.time()
-    tmo = 420 if ctx.quick else 1500
+    tmo = 600 if ctx.quick else 1800
     res = pipeline.run_profiles(dirs, timeout=tmo)
     stats["build_and_run_s"] = round(time.time() - t0, 1)
     if save:
@@ -284,7 +304,7 @@ def run(ctx):
                       "C01 proofs do not check (ops.sw impls as regenerated no longer refine the documented arithmetic, or Frag meta-theory broke); "
                       "the generated operator sweeps below are the search for a failing input", no_input=True)
     judge_ok = os.path.exists(os.path.join(coq.COQ, "C01", "Judge.vo"))
-    npk, nprog = (3, 32) if ctx.quick else (40, 60)
+    npk, nprog = (3, 24) if ctx.quick else (40, 60)
     hist, good = {}, []
     import threading
     e2e_box = []
